@@ -106,3 +106,18 @@ func (s *System) VerifSubscriptions() (bySubscribers []string, byTypes []string)
 	sort.Strings(byTypes)
 	return
 }
+
+// VerifJobRefs returns the references recorded in the actor's scheduler (sorted).
+func (c *Context) VerifJobRefs() []string {
+	var out []string
+	for r := range c.scheduler.jobKeys {
+		out = append(out, r)
+	}
+	sort.Strings(out)
+	return out
+}
+
+// VerifJobKeys returns the keys of all jobs in the shared scheduler queue (sorted).
+func (s *System) VerifJobKeys() []string {
+	return s.scheduler.VerifJobKeys()
+}
